@@ -52,6 +52,9 @@ def variants(model):
     # values assigned with set_all_parameter_values, then one parameter fixed WITHOUT a value: it stays where it was put
     moved = [round(tr[q] * (1.05 if i % 2 == 0 else 0.96), 6) for i, q in enumerate(w.par_names)]
     out.append(("setall+fix:" + free[-1], [("setall", moved), ("fix", free[-1])]))
+    # a parameter fixed first and moved afterwards (both setters): it stays fixed, at the value it was moved to
+    out.append(("fix+setall:" + free[-1], [("fix", free[-1]), ("setall", moved)]))
+    out.append(("fix+set:" + free[0], [("fix", free[0], round(tr[free[0]] * 0.9, 6)), ("set", {free[0]: round(tr[free[0]] * 1.03, 6)})]))
     # two limited parameters, one limit removed again: the other limit (with the optimum on its bound) must stay in force
     p_b, p_o = free[-1], free[0]
     lo_b, hi_b = sorted((0.3 * tr[p_b], 0.93 * tr[p_b]))
@@ -85,7 +88,7 @@ def jobs(tier, seed):
 
 
 def bound(tier, seed):
-    return "%d nonlinear families x 5 uncertainty configurations (y, x+y, model-relative, x+y+model-relative, matrix+correlated) x {nonlinear, iterative where the covariance depends on the parameters} x {free, each parameter fixed, two fixed, limited inside (two positions), limited on the bound, limited+fixed} x {iminuit, scipy}; Poisson / Gaussian-NLL / Gauss-approximation histogram fits and unbinned fits x {free, fixed, limited}; valuation(s) %s" % (
+    return "%d nonlinear families x 5 uncertainty configurations (y, x+y, model-relative, x+y+model-relative, matrix+correlated) x {nonlinear, iterative where the covariance depends on the parameters} x {free, each parameter fixed, two fixed, limited inside (two positions), limited on the bound, limited+fixed, set_all then fix, fix then set_all / set, two limits one removed} x {iminuit, scipy}; Poisson / Gaussian-NLL / Gauss-approximation histogram fits and unbinned fits x {free, fixed, limited}; valuation(s) %s" % (
         len(QUICK_FAMILIES if tier == "quick" else FAMILIES),
         (seed % 3) if tier == "quick" else "0,1,2",
     )
